@@ -41,45 +41,85 @@ let bytes_of_string (s : string) : n list =
 
 let run_node id ordered head body =
   let k = ref 1 in
+  let kind = ref "full" in
   List.iter (fun f ->
       if String.length f > 6 && String.sub f 0 6 = "peers=" then
-        k := int_of_string (String.sub f 6 (String.length f - 6))) (split_ws head);
+        k := int_of_string (String.sub f 6 (String.length f - 6));
+      if String.length f > 5 && String.sub f 0 5 = "kind=" then
+        kind := String.sub f 5 (String.length f - 5)) (split_ws head);
+  if !kind <> "nonvoting" && !kind <> "witness" then kind := "full";
+  let nh = List.length node_hosts in
   if !k < 1 then k := 1;
-  if !k > List.length node_hosts then k := List.length node_hosts;
+  if !k > nh then k := nh;
+  let first = if !kind = "full" then 1 else 2 in
+  if first = 2 && !k > nh - 1 then k := nh - 1;
   let m = ref empty_membership in
   let applied = ref 0 in
   let pending = ref None in
+  let queued = ref 0 in
   let self = n_of_int 1 in
-  (* returns true when the replica applied its own removal *)
-  let apply n c =
-    incr applied;
-    (match handle_ascii ordered !m c (n_of_int !applied) with
-     | Applied m' -> m := m'; Printf.printf "%s %d A %s\n" id n (show_membership !m)
-     | Rejected _ -> Printf.printf "%s %d R %s\n" id n (show_membership !m)
-     | Panicked t -> Printf.printf "%s %d P%s\n" id n (string_of_n t); raise Stop);
+  let z_of_int i = z_of_string (string_of_int i) in
+  let self_removed n =
     if rmem self !m.m_removed then begin Printf.printf "%s %d SELFREMOVED\n" id n; raise Stop end in
+  let step c =
+    incr applied;
+    match handle_ascii ordered !m c (n_of_int !applied) with
+    | Applied m' -> m := m'; "A"
+    | Rejected _ -> "R"
+    | Panicked t -> "P" ^ string_of_n t in
+  let apply n c =
+    let v = step c in
+    if String.length v > 0 && v.[0] = 'P' then begin Printf.printf "%s %d %s\n" id n v; raise Stop end;
+    Printf.printf "%s %d %s %s\n" id n v (show_membership !m);
+    self_removed n in
+  let drain n report =
+    if !queued = 0 then begin
+      if report then Printf.printf "%s %d H 0 %s\n" id n (show_membership !m)
+    end else begin
+      Printf.printf "%s %d H %d %s\n" id n !queued (show_membership !m);
+      queued := 0;
+      self_removed n
+    end in
+  let skip_for_kind ty rep =
+    if !kind = "full" || n_of_string rep <> self || ty = "1" then false
+    else if !kind = "witness" then ty <> "3"
+    else if ty = "0" then not (amem self !m.m_nonvotings)
+    else ty <> "2" in
   let mkcc ty rep addr ccid init =
     { cc_ccid = n_of_string ccid; cc_type = z_of_string ty; cc_replica = n_of_string rep;
       cc_addr = bytes_of_hex addr; cc_init = init } in
   (try
     List.iteri (fun i h ->
-      if i < !k then begin
-        incr applied;
-        let c = { cc_ccid = N0; cc_type = z_of_string "0"; cc_replica = n_of_int (i + 1);
+      if i + 1 >= first && i + 1 < first + !k then begin
+        let c = { cc_ccid = N0; cc_type = z_of_int 0; cc_replica = n_of_int (i + 1);
                   cc_addr = bytes_of_string h; cc_init = true } in
-        (match handle_ascii ordered !m c (n_of_int !applied) with Applied m' -> m := m' | _ -> ())
+        ignore (step c)
       end) node_hosts;
     Printf.printf "%s b B %s\n" id (show_membership !m);
     let ops = Str.split (Str.regexp_string " ; ") body in
     List.iteri (fun n op ->
-      match split_ws op with
+      let f = split_ws op in
+      (match f with
+       | "qent" :: _ | "badreq" :: _ | [] -> ()
+       | "handle" :: _ -> drain n true
+       | _ -> drain n false);
+      match f with
       | [] -> ()
       | "badreq" :: _ -> ()
+      | ["handle"] -> ()
+      | (("req" | "pend" | "ent" | "qent") :: ty :: rep :: _) when skip_for_kind ty rep ->
+        Printf.printf "%s %d SKIP\n" id n
+      | ["qent"; ty; rep; addr; ccid; init] ->
+        ignore (step (mkcc ty rep addr ccid (init = "1")));
+        incr queued;
+        Printf.printf "%s %d QUEUED\n" id n
       | ["req"; ty; rep; addr; ccid] ->
-        if !pending <> None then Printf.printf "%s %d REFUSED busy\n" id n
+        if !kind = "witness" then Printf.printf "%s %d REFUSED witness\n" id n
+        else if !pending <> None then Printf.printf "%s %d REFUSED busy\n" id n
         else apply n (mkcc ty rep addr ccid false)
       | ["pend"; ty; rep; addr; ccid] ->
-        if !pending <> None then Printf.printf "%s %d REFUSED busy\n" id n
+        if !kind = "witness" then Printf.printf "%s %d REFUSED witness\n" id n
+        else if !pending <> None then Printf.printf "%s %d REFUSED busy\n" id n
         else begin pending := Some (mkcc ty rep addr ccid false); Printf.printf "%s %d PENDING\n" id n end
       | ["commit"] ->
         (match !pending with
@@ -91,7 +131,7 @@ let run_node id ordered head body =
                      m_nonvotings = parse_map nv; m_witnesses = parse_map w };
         applied := !applied + 1 + int_of_string skip;
         Printf.printf "%s %d S %s\n" id n (show_membership !m);
-        if rmem self !m.m_removed then begin Printf.printf "%s %d SELFREMOVED\n" id n; raise Stop end
+        self_removed n
       | _ -> Printf.printf "%s %d BADOP\n" id n) ops
   with Stop -> ())
 
